@@ -24,14 +24,20 @@ func TestMain(m *testing.M) { ev.Main(m, "C18") }
 
 var subManifest = ev.Register("manifest", checkManifest)
 
-func openManifest(doc []byte) (b *sourcebundle.Bundle, root string, err error, panicked any, cleanup func()) {
+func openManifest(doc []byte, viaLink bool) (b *sourcebundle.Bundle, root string, err error, panicked any, cleanup func()) {
 	arena, cl := fsx.Scratch("c18-")
 	root = filepath.Join(arena, "bundle")
 	os.MkdirAll(root, 0755)
+	realRoot := root
+	if viaLink {
+		// the bundle directory is named through a symlink ("current -> bundle"); that name is the root from here on
+		os.Symlink("bundle", filepath.Join(arena, "current"))
+		root = filepath.Join(arena, "current")
+	}
 	// decoys next to the root
 	os.MkdirAll(filepath.Join(arena, "bundle-evil"), 0755)
 	os.MkdirAll(filepath.Join(arena, "sibling"), 0755)
-	os.WriteFile(filepath.Join(root, "terraform-sources.json"), doc, 0644)
+	os.WriteFile(filepath.Join(realRoot, "terraform-sources.json"), doc, 0644)
 	func() {
 		defer func() { panicked = recover() }()
 		b, err = sourcebundle.OpenDir(root)
@@ -44,8 +50,18 @@ func badLocal(l string) bool {
 }
 
 func checkManifest(d mgen.Doc) error {
+	if err := checkManifestAt(d, false); err != nil {
+		return err
+	}
+	if err := checkManifestAt(d, true); err != nil {
+		return fmt.Errorf("bundle directory named through a symlink: %v", err)
+	}
+	return nil
+}
+
+func checkManifestAt(d mgen.Doc, viaLink bool) error {
 	doc := d.Render()
-	b, root, err, panicked, cleanup := openManifest(doc)
+	b, root, err, panicked, cleanup := openManifest(doc, viaLink)
 	defer cleanup()
 	if panicked != nil {
 		if ev.IsKnown("c19-opendir-version-panic") {
@@ -75,12 +91,21 @@ func checkManifest(d mgen.Doc) error {
 			}
 		}
 	}
+	// the root as the operating system sees it: a path below either spelling lies inside the root directory
+	physRoot, perr := filepath.EvalSymlinks(root)
+	if perr != nil {
+		physRoot = root
+	}
 	inside := func(what, p string) error {
-		rel, rerr := filepath.Rel(root, p)
-		if rerr != nil || rel == ".." || strings.HasPrefix(rel, "../") || rel == "." || filepath.IsAbs(rel) {
-			return fmt.Errorf("%s returned %q, which is not inside the bundle root %q (relative: %q)", what, p, root, rel)
+		var rel string
+		for _, r := range []string{root, physRoot} {
+			var rerr error
+			rel, rerr = filepath.Rel(r, p)
+			if rerr == nil && rel != ".." && !strings.HasPrefix(rel, "../") && rel != "." && !filepath.IsAbs(rel) {
+				return nil
+			}
 		}
-		return nil
+		return fmt.Errorf("%s returned %q, which is not inside the bundle root %q (relative: %q)", what, p, root, rel)
 	}
 	subs := []string{"", "a", "modules/x", "deep/er/path"}
 	for _, pa := range b.RemotePackages() {
@@ -148,7 +173,8 @@ func checkInverse(b *sourcebundle.Bundle, root string, label any) error {
 			}
 			want := filepath.Join(dir, tail)
 			relToCwd, _ := filepath.Rel(filepath.Dir(root), want)
-			spellings := []string{want, relToCwd, filepath.Join(dir, ".", tail) + "/.", dir + "/x/../" + tail, "./" + relToCwd}
+			// ... and through the root exactly as it was given to OpenDir / ExtractArchive
+			spellings := []string{want, relToCwd, filepath.Join(dir, ".", tail) + "/.", dir + "/x/../" + tail, "./" + relToCwd, filepath.Join(root, filepath.Base(dir), tail)}
 			for _, sp := range spellings {
 				src, err := b.SourceForLocalPath(sp)
 				if err != nil {
